@@ -105,3 +105,43 @@ def arity_guard_ok(facts):
         if any(e in seen for e in exec_bbs):
             return False, "the failing arity test (%s < %s) can still reach exec" % (pa, pb)
     return True, "len < min_args and max_args < len both leave before exec"
+
+
+def helper_arity(facts, arity):
+    """Private helpers of the function library that are handed the argument vector of a table function unchanged
+    (`substring_around(args, |v| v.0)`): the helper sees at least as many arguments as the least of its callers guarantees.
+    -> arity extended by {helper id: min over callers}; only helpers all of whose callers are table functions (or such helpers)
+    and that receive the caller's own `args` parameter are added."""
+    out = dict(arity)
+    edges = facts.edges()
+    callers = {}
+    for fid, es in edges.items():
+        for e in es:
+            if e["kind"] in ("call", "cha", "fwd", "mention", "store") and e["to"] in facts.fns:
+                callers.setdefault(e["to"], set()).add(fid)
+    changed = True
+    while changed:
+        changed = False
+        for gid, g in facts.fns.items():
+            if gid in out or "body" not in g or g["crate"] != "xml_xpath" or not g["path"].startswith("xml_xpath::eval::func::"):
+                continue
+            if not str(g.get("vis", "")).startswith("Restricted") or g.get("parent"):
+                continue
+            cs = {c for c in callers.get(gid, ()) if c != gid and facts.fns[c].get("parent") != g["path"]}
+            if not cs or not all(c in out for c in cs):
+                continue
+            ok = True
+            for c in cs:
+                cf = facts.fns[c]
+                pl = {p_.get("lid") for p_ in cf.get("params", []) if "Vec<" in str(p_.get("ty", "")) and "Value" in str(p_.get("ty", ""))}
+                passed = False
+                for m in walk(cf["body"]):
+                    if m.get("k") == "Call" and (m["f"].get("rid") or m["f"].get("id")) == gid:
+                        passed = bool(m.get("args")) and m["args"][0].get("k") == "Path" and m["args"][0].get("lid") in pl
+                        if not passed:
+                            ok = False
+                ok = ok and passed
+            if ok:
+                out[gid] = min(out[c] for c in cs)
+                changed = True
+    return out
